@@ -4,6 +4,7 @@
 package flow
 
 import (
+	"go/token"
 	"go/types"
 
 	"golang.org/x/tools/go/ssa"
@@ -462,4 +463,154 @@ func ContradictFacts(fa, fb []Fact) bool {
 		}
 	}
 	return false
+}
+
+// ---- guarded coverage ----------------------------------------------------------
+
+// valEq: the same SSA value, or equal constants.
+func valEq(a, b ssa.Value) bool {
+	if a == b {
+		return true
+	}
+	ca, ok1 := a.(*ssa.Const)
+	cb, ok2 := b.(*ssa.Const)
+	if !ok1 || !ok2 {
+		return false
+	}
+	if ca.Value == nil || cb.Value == nil {
+		return ca.Value == nil && cb.Value == nil
+	}
+	return ca.Value.Kind() == cb.Value.Kind() && ca.Value.ExactString() == cb.Value.ExactString()
+}
+
+// CondRel compares two branch conditions structurally: +1 the same condition
+// (same value, or the same comparison of the same stable operands), -1 its
+// negation (== against != on the same operands), 0 unrelated.
+func CondRel(a, b ssa.Value) int {
+	if a == b {
+		return 1
+	}
+	ba, ok1 := a.(*ssa.BinOp)
+	bb, ok2 := b.(*ssa.BinOp)
+	if !ok1 || !ok2 {
+		return 0
+	}
+	same := valEq(ba.X, bb.X) && valEq(ba.Y, bb.Y)
+	swapped := valEq(ba.X, bb.Y) && valEq(ba.Y, bb.X)
+	if !same && !swapped {
+		return 0
+	}
+	if !Stable(ba.X) || !Stable(ba.Y) || !Stable(bb.X) || !Stable(bb.Y) {
+		return 0
+	}
+	neg := map[token.Token]token.Token{token.EQL: token.NEQ, token.NEQ: token.EQL, token.LSS: token.GEQ, token.GEQ: token.LSS, token.GTR: token.LEQ, token.LEQ: token.GTR}
+	flip := map[token.Token]token.Token{token.EQL: token.EQL, token.NEQ: token.NEQ, token.LSS: token.GTR, token.GTR: token.LSS, token.LEQ: token.GEQ, token.GEQ: token.LEQ}
+	opb := bb.Op
+	if swapped && !same {
+		var ok bool
+		if opb, ok = flip[opb]; !ok {
+			return 0
+		}
+	}
+	switch {
+	case ba.Op == opb:
+		return 1
+	case neg[ba.Op] == opb:
+		return -1
+	}
+	return 0
+}
+
+// prunedSuccs: the successors of b an execution can take given that the facts
+// fs hold throughout (edges of a branch whose condition is structurally decided
+// by a fact are dropped).
+func prunedSuccs(b *ssa.BasicBlock, fs []Fact) []*ssa.BasicBlock {
+	iff, ok := b.Instrs[len(b.Instrs)-1].(*ssa.If)
+	if !ok {
+		return b.Succs
+	}
+	conds := Expand([]Fact{{Cond: iff.Cond, True: true, If: iff}})
+	// only a single plain condition can be decided
+	if len(conds) != 1 {
+		return b.Succs
+	}
+	for _, f := range fs {
+		switch CondRel(conds[0].Cond, f.Cond) {
+		case 1:
+			if f.True == conds[0].True {
+				return b.Succs[:1]
+			}
+			return b.Succs[1:2]
+		case -1:
+			if f.True == conds[0].True {
+				return b.Succs[1:2]
+			}
+			return b.Succs[:1]
+		}
+	}
+	return b.Succs
+}
+
+// CoveredBy reports whether, in every execution in which the facts holding at
+// block s hold, passing s implies passing r: either every fact-consistent path
+// from the entry to s passes r, or every fact-consistent path from s to a
+// return passes r.
+func CoveredBy(s, r *ssa.BasicBlock) bool {
+	if s == r {
+		return true
+	}
+	fs := FactsAt(s)
+	var stable []Fact
+	for _, f := range fs {
+		if b, ok := f.Cond.(*ssa.BinOp); ok && Stable(b.X) && Stable(b.Y) {
+			stable = append(stable, f)
+		} else if Stable(f.Cond) {
+			stable = append(stable, f)
+		}
+	}
+	reach := func(from *ssa.BasicBlock, goal func(*ssa.BasicBlock) bool) bool {
+		seen := map[*ssa.BasicBlock]bool{from: true}
+		stack := []*ssa.BasicBlock{from}
+		first := true
+		for len(stack) > 0 {
+			x := stack[len(stack)-1]
+			stack = stack[:len(stack)-1]
+			if !first || x != from {
+				if goal(x) {
+					return true
+				}
+			}
+			first = false
+			for _, y := range prunedSuccs(x, stable) {
+				if y == r || seen[y] {
+					continue
+				}
+				seen[y] = true
+				stack = append(stack, y)
+			}
+		}
+		return false
+	}
+	fn := s.Parent()
+	entry := fn.Blocks[0]
+	var before bool
+	switch entry {
+	case r:
+		before = true
+	case s:
+		before = false
+	default:
+		before = !reach(entry, func(b *ssa.BasicBlock) bool { return b == s })
+	}
+	if before {
+		return true
+	}
+	isExit := func(b *ssa.BasicBlock) bool {
+		_, ok := b.Instrs[len(b.Instrs)-1].(*ssa.Return)
+		return ok
+	}
+	if isExit(s) {
+		return false
+	}
+	return !reach(s, isExit)
 }
